@@ -202,7 +202,7 @@ class Interp:
             raise _Continue()
         elif isinstance(s, ast.Break):
             raise _Break()
-        elif isinstance(s, ast.Pass):
+        elif isinstance(s, (ast.Pass, ast.Import, ast.ImportFrom)):
             return
         elif isinstance(s, ast.Try):
             try:
@@ -366,7 +366,25 @@ class Interp:
         if isinstance(n, ast.Call):
             return self.callexpr(n, L)
         if isinstance(n, ast.JoinedStr):
-            return Sym("fstring", (U(n),))
+            parts = []
+            for v in n.values:
+                if isinstance(v, ast.Constant):
+                    parts.append(str(v.value))
+                else:
+                    x = self.ev(v.value, L)
+                    if not _plain(x) or v.format_spec is not None or v.conversion != -1:
+                        return Sym("fstring", (U(n),))
+                    parts.append(str(x))
+            return "".join(parts)
+        if isinstance(n, ast.Lambda):
+            params = [a.arg for a in n.args.args]
+            closure = dict(L)
+
+            def lam(interp, node, a, kw, n=n, params=params, closure=closure):
+                L2 = dict(closure)
+                L2.update(dict(zip(params, a)))
+                return interp.ev(n.body, L2)
+            return lam
         self.unsupported(n)
 
     def comp(self, gens, k, L, emit):
@@ -434,8 +452,7 @@ class Interp:
             return ("__bound__", obj, attr)
         if isinstance(obj, list) and attr in ("append", "extend", "index", "count"):
             return ("__bound__", obj, attr)
-        if isinstance(obj, str) and attr in ("count", "startswith", "isdigit", "join",
-                                              "split"):
+        if isinstance(obj, str) and attr in _STR_METHODS:
             return ("__bound__", obj, attr)
         if self.attr_hook is not None:
             r = self.attr_hook(self, obj, attr, node)
@@ -470,7 +487,11 @@ class Interp:
                 # generator arguments are materialised as lists
                 a, kw = args()
                 if name in ("min", "max", "sorted") and "key" in kw:
-                    self.unsupported(n, "key function")
+                    k = kw["key"]
+                    if not callable(k):
+                        self.unsupported(n, "key function")
+                    kw = dict(kw)
+                    kw["key"] = lambda v, k=k: k(self, n, [v], {})
                 try:
                     return _BUILTINS[name](*a, **kw)
                 except Raised:
@@ -506,6 +527,8 @@ class Interp:
                     if attr == "index":
                         return o.index(a[0])
                 if isinstance(o, str):
+                    if attr not in _STR_METHODS:
+                        self.unsupported(n, f"str method {attr}")
                     try:
                         return getattr(o, attr)(*a)
                     except Exception:
@@ -528,6 +551,10 @@ class Interp:
         if cls is str:
             return isinstance(obj, str)
         self.unsupported(node, "isinstance against an unmodelled class")
+
+
+_STR_METHODS = ("count", "startswith", "endswith", "isdigit", "isnumeric", "join", "split",
+                "replace", "strip", "lstrip", "rstrip", "lower", "upper", "index", "find")
 
 
 def _plain(v):
